@@ -486,7 +486,23 @@ def run_case(case, seed=0, solver_timeout_ms=60000, cvc5=False, selfcheck_points
             if len(Rr) == 1:
                 Rr = Rr * len(L)
             else:
-                res.update(status="error", detail=f"claim {label}: shape mismatch {np.shape(lhs)} vs {np.shape(rhs)}")
+                # the real code returned an array of a different size than the property prescribes (e.g. R components where
+                # R1*R2 are required): confirm on the float64 run of the same closure, then it is a violation
+                rng_s = random.Random(seed + 29)
+                env_s = gen_env(case, ctx, rng_s)
+                try:
+                    If_s = eval_inputs(I, env_s)
+                    Of_s = real_run(case, If_s)
+                    cl_s = case.claims(If_s, Of_s, FloatOps())
+                    same = any(c[0] == label and np.size(c[1]) != np.size(c[2]) and np.size(c[2]) != 1 for c in cl_s if c[0] not in ("GE0", "SHAPE"))
+                except Exception as ex_s:
+                    same = False
+                if same:
+                    res.update(status="violation", detail=f"result has {np.shape(lhs)} entries where the property prescribes {np.shape(rhs)} ({label}); confirmed on the float64 run",
+                               violated=[f"shape:{label} {np.shape(lhs)} vs {np.shape(rhs)}"],
+                               replay={"kind": "shape", "inputs": {k: v.tolist() for k, v in If_s.items()}, "lhs_shape": list(np.shape(lhs)), "rhs_shape": list(np.shape(rhs))})
+                else:
+                    res.update(status="error", detail=f"claim {label}: shape mismatch {np.shape(lhs)} vs {np.shape(rhs)}")
                 return res
         for k, (x, y) in enumerate(zip(L, Rr)):
             vc.equal(f"{label}#{k}", x, y)
